@@ -921,6 +921,222 @@ static void do_D(char **t)
     oom_reset();
 }
 
+/* ---- X: wbxml_tree_to_xml() on a tree assembled from shapes ----
+ *   OOM X <k1> <k2> <gen> <indent> <keepws> <lang> <node>
+ *   gen     0 compact | 1 indent | 2 canonical          indent: params.indent     keepws: params.keep_ignorable_ws
+ *   lang    <letter>:<fff>:<root>:<public id>:<dtd>      letter W (WML 1.3) | S (SyncML 1.2) | V (DevInf 1.2) | A (AirSync);
+ *           the rest is what the MODEL reads of the language table (attribute table?, SyncML?, SyncML 1.2?, DOCTYPE strings)
+ *   node    E<tag>/<name>/<ns|->/<b><m>[~<attr>|<attr>...](<node>,<node>...)     element; tag = T<row> | L<hex>;
+ *                  name / ns / b (binary tag) / m (MetInf <Type>) are the model's inputs, decided here from the tables
+ *           T<hex>                         text node (linked as it is: adjacent text nodes are NOT joined)
+ *           C(<node>,...)                  CDATA section
+ *           Y<lang>(<node>)                embedded tree (WBXML_TREE_TREE_NODE)
+ *           P                              processing-instruction node (the printer refuses it)
+ *   attr    T<row>:<name>=<value> | L<name>=<value> | N=<value> (attribute without name)
+ * Compared with the model: error code, requests, failures delivered, live blocks at exit (the result), ledger
+ * fault, the XML text. */
+static const WBXMLLangEntry *x_lang(char c)
+{
+    switch (c) {
+    case 'S': return wbxml_tables_get_table(WBXML_LANG_SYNCML_SYNCML12);
+    case 'V': return wbxml_tables_get_table(WBXML_LANG_SYNCML_DEVINF12);
+    case 'A': return wbxml_tables_get_table(WBXML_LANG_AIRSYNC);
+    default:  return wbxml_tables_get_table(WBXML_LANG_WML13);
+    }
+}
+
+static void x_link(WBXMLTree *tree, WBXMLTreeNode *parent, WBXMLTreeNode *n)
+{
+    WBXMLTreeNode *t;
+    n->parent = parent;
+    if (!parent) { if (!tree->root) tree->root = n; else { for (t = tree->root; t->next; t = t->next) ; t->next = n; n->prev = t; } return; }
+    if (!parent->children) { parent->children = n; return; }
+    for (t = parent->children; t->next; t = t->next) ;
+    t->next = n; n->prev = t;
+}
+
+static int x_bad;
+static char *x_hexend(char *p) { while ((*p >= '0' && *p <= '9') || (*p >= 'a' && *p <= 'f') || *p == '-') p++; return p; }
+static unsigned char *x_take(char **p, size_t *n) { char *e = x_hexend(*p), sv = *e; unsigned char *x; *e = 0; x = hx_unhex(*p, n); *e = sv; *p = e; return x; }
+static char *x_nodes(char *p, WBXMLTree *tree, WBXMLTreeNode *parent, const WBXMLLangEntry *lang);
+
+static char *x_node(char *p, WBXMLTree *tree, WBXMLTreeNode *parent, const WBXMLLangEntry *lang)
+{
+    size_t n; unsigned char *x;
+    if (*p == 'E') {
+        WBXMLTreeNode *e = wbxml_tree_node_create(WBXML_TREE_ELEMENT_NODE);
+        p++;
+        if (*p == 'T') { int row = (int)strtol(p + 1, &p, 10); e->name = wbxml_tag_create_token(&lang->tagTable[row]); }
+        else if (*p == 'L') { p++; x = x_take(&p, &n); e->name = wbxml_tag_create_literal(x); free(x); }
+        else x_bad = 1;
+        x_link(tree, parent, e);
+        if (*p != '/') { x_bad = 1; return p; }
+        p = x_hexend(p + 1);                                   /* name */
+        if (*p != '/') { x_bad = 1; return p; }
+        p = x_hexend(p + 1);                                   /* ns */
+        if (*p != '/' || !p[1] || !p[2]) { x_bad = 1; return p; }
+        p += 3;                                                /* flags */
+        if (*p == '~') {
+            e->attrs = wbxml_list_create();
+            do {
+                WBXMLAttribute *a = wbxml_attribute_create();
+                p++;
+                if (*p == 'T') { int row = (int)strtol(p + 1, &p, 10); a->name = wbxml_attribute_name_create_token(&lang->attrTable[row]);
+                                 if (*p != ':') { x_bad = 1; } else p = x_hexend(p + 1); }
+                else if (*p == 'L') { p++; x = x_take(&p, &n); a->name = wbxml_attribute_name_create_literal(x); free(x); }
+                else if (*p == 'N') p++;
+                else x_bad = 1;
+                if (*p != '=') { x_bad = 1; wbxml_attribute_destroy(a); return p; }
+                p++; x = x_take(&p, &n);
+                a->value = wbxml_buffer_create_real(x, (WB_ULONG)n, (WB_ULONG)n); free(x);
+                wbxml_list_append(e->attrs, a);
+            } while (*p == '|' && !x_bad);
+        }
+        if (*p != '(') { x_bad = 1; return p; }
+        p = x_nodes(p + 1, tree, e, lang);
+        if (*p != ')') { x_bad = 1; return p; }
+        return p + 1;
+    }
+    if (*p == 'T') {
+        WBXMLTreeNode *t = wbxml_tree_node_create(WBXML_TREE_TEXT_NODE);
+        p++; x = x_take(&p, &n);
+        t->content = wbxml_buffer_create_real(x, (WB_ULONG)n, (WB_ULONG)n); free(x);
+        x_link(tree, parent, t);
+        return p;
+    }
+    if (*p == 'C' && p[1] == '(') {
+        WBXMLTreeNode *c = wbxml_tree_node_create(WBXML_TREE_CDATA_NODE);
+        x_link(tree, parent, c);
+        p = x_nodes(p + 2, tree, c, lang);
+        if (*p != ')') { x_bad = 1; return p; }
+        return p + 1;
+    }
+    if (*p == 'Y') {
+        WBXMLTreeNode *y = wbxml_tree_node_create(WBXML_TREE_TREE_NODE);
+        const WBXMLLangEntry *l2 = x_lang(p[1]);
+        x_link(tree, parent, y);
+        y->tree = wbxml_tree_create(l2->langID, WBXML_CHARSET_UTF_8);
+        p = strchr(p, '(');
+        if (!p) { x_bad = 1; return ""; }
+        p = x_node(p + 1, y->tree, NULL, l2);
+        if (*p != ')') { x_bad = 1; return p; }
+        return p + 1;
+    }
+    if (*p == 'P') { x_link(tree, parent, wbxml_tree_node_create(WBXML_TREE_PI_NODE)); return p + 1; }
+    x_bad = 1;
+    return p;
+}
+
+static char *x_nodes(char *p, WBXMLTree *tree, WBXMLTreeNode *parent, const WBXMLLangEntry *lang)
+{
+    if (*p == ')') return p;
+    for (;;) {
+        p = x_node(p, tree, parent, lang);
+        if (x_bad || *p != ',') return p;
+        p++;
+    }
+}
+
+static void do_X(char **t)
+{
+    const WBXMLLangEntry *lang = x_lang(t[7][0]); WBXMLTree *tree; WBXMLGenXMLParams params; WB_UTINY *out = NULL; WB_ULONG len = 0;
+    WBXMLError ret; unsigned long live0; char *end;
+    oom_reset();
+    x_bad = 0;
+    tree = wbxml_tree_create(lang->langID, WBXML_CHARSET_UTF_8);
+    end = x_node(t[8], tree, NULL, lang);
+    if (x_bad || *end) printf("BADREQ\n");
+    else {
+        params.gen_type = (WBXMLGenXMLType)atoi(t[4]); params.lang = lang->langID; params.charset = WBXML_CHARSET_UNKNOWN;
+        params.indent = (WB_UTINY)atoi(t[5]); params.keep_ignorable_ws = atoi(t[6]) ? TRUE : FALSE;
+        live0 = oom.live_blocks;
+        oom_window(strtoul(t[2], NULL, 10), strtoul(t[3], NULL, 10));
+        ret = wbxml_tree_to_xml(tree, &out, &len, &params);
+        oom_stop();
+        printf("R %d | ", (int)ret); put_tail(live0); printf(" | out=");
+        if (!out) printf("N"); else hx_out(stdout, out, len);
+        printf("\n");
+        if (out) wbxml_free(out);
+    }
+    wbxml_tree_destroy(tree);
+    oom_reset();
+}
+
+/* ---- F: wbxml_tree_from_xml() on an XML text (Expat runs for real; its allocations are libc's) ----
+ *   OOM F <k1> <k2> <xml hex> <parseOk> <events>
+ * Only the XML text is used here.  <parseOk> and <events> are what the MODEL is given: the result of XML_Parse and
+ * the call-backs Expat makes, as the generator predicts them (S<langOk><tag>[/<attr>;...]  E<binary><decoded hex>
+ * A  Z  C<datatype><binary><hex>).  Compared: error code, requests, failures delivered, live blocks at exit (the
+ * tree), ledger fault, canonical dump of the tree (a token name prints as T0, or T1 for a tag with WBXML_TAG_OPTION_BINARY:
+ * which row a name resolves to allocates nothing). */
+static void f_name(int type, WBXMLBuffer *lit, int binary)
+{
+    if (type == WBXML_VALUE_TOKEN) printf("T%d", binary);
+    else if (lit == NULL) printf("LN");
+    else { printf("L"); put_buf(lit); }
+}
+
+static void f_dump(WBXMLTreeNode *n)
+{
+    WBXMLTreeNode *c;
+    printf("(");
+    switch (n->type) {
+    case WBXML_TREE_ELEMENT_NODE:
+        printf("E");
+        if (!n->name) printf("N"); else f_name(n->name->type, n->name->type == WBXML_VALUE_LITERAL ? n->name->u.literal : NULL,
+                                               n->name->type == WBXML_VALUE_TOKEN && (n->name->u.token->options & WBXML_TAG_OPTION_BINARY));
+        if (n->attrs) { WB_ULONG j; for (j = 0; j < wbxml_list_len(n->attrs); j++) { WBXMLAttribute *a = wbxml_list_get(n->attrs, j);
+            printf("(");
+            if (!a->name) printf("N"); else f_name(a->name->type, a->name->type == WBXML_VALUE_LITERAL ? a->name->u.literal : NULL, 0);
+            printf(";");
+            if (!a->value) printf("N"); else put_buf(a->value);
+            printf(")"); } }
+        break;
+    case WBXML_TREE_TEXT_NODE: printf("T"); if (n->content) put_buf(n->content); else printf("N"); break;
+    case WBXML_TREE_CDATA_NODE: printf("C"); break;
+    default: printf("?"); break;
+    }
+    for (c = n->children; c; c = c->next) f_dump(c);
+    printf(")");
+}
+
+static void do_F(char **t)
+{
+    size_t n; unsigned char *xml = hx_unhex(t[4], &n); WBXMLTree *tree = NULL; WBXMLError ret; unsigned long live0;
+    oom_reset();
+    live0 = oom.live_blocks;
+    oom_window(strtoul(t[2], NULL, 10), strtoul(t[3], NULL, 10));
+    ret = wbxml_tree_from_xml(xml, (WB_ULONG)n, &tree);
+    oom_stop();
+    printf("R %d | ", (int)ret); put_tail(live0);
+    printf(" | tree=");
+    if (!tree) printf("N"); else if (!tree->root) printf("-"); else f_dump(tree->root);
+    printf("\n");
+    if (tree) wbxml_tree_destroy(tree);
+    free(xml);
+    oom_reset();
+}
+
+/* "OOM XINFO <letter>": what the generator of X needs of a language table */
+static void do_XINFO(char c)
+{
+    const WBXMLLangEntry *l = x_lang(c); int i;
+    printf("XINFO attrtable=%d syncml=%d syncml12=%d root=", l->attrTable != NULL,
+           l->langID == WBXML_LANG_SYNCML_SYNCML10 || l->langID == WBXML_LANG_SYNCML_SYNCML11 || l->langID == WBXML_LANG_SYNCML_SYNCML12,
+           l->langID == WBXML_LANG_SYNCML_SYNCML12);
+    hx_outs(stdout, l->publicID->xmlRootElt); printf(" pubid="); hx_outs(stdout, l->publicID->xmlPublicID ? l->publicID->xmlPublicID : "");
+    printf(" dtd="); hx_outs(stdout, l->publicID->xmlDTD);
+    printf(" tags=");
+    for (i = 0; l->tagTable[i].xmlName; i++) { printf("%s%d:%d:%d:%d:", i ? "," : "", i, l->tagTable[i].wbxmlCodePage, l->tagTable[i].wbxmlToken,
+                                                      (l->tagTable[i].options & WBXML_TAG_OPTION_BINARY) ? 1 : 0); hx_outs(stdout, l->tagTable[i].xmlName); }
+    printf(" ns=");
+    if (!l->nsTable) printf("N"); else for (i = 0; l->nsTable[i].xmlNameSpace; i++) { printf("%s%d:", i ? "," : "", l->nsTable[i].wbxmlCodePage); hx_outs(stdout, l->nsTable[i].xmlNameSpace); }
+    printf(" attrs=");
+    if (!l->attrTable) printf("N"); else for (i = 0; l->attrTable[i].xmlName; i++) { printf("%s%d:", i ? "," : "", i); hx_outs(stdout, l->attrTable[i].xmlName); printf(":");
+                                             if (l->attrTable[i].xmlValue) hx_outs(stdout, l->attrTable[i].xmlValue); else printf("N"); }
+    printf("\n");
+}
+
 static int unit_main(void)
 {
     char *line;
@@ -935,6 +1151,9 @@ static int unit_main(void)
         else if (nt == 9 && !strcmp(t[0], "OOM") && !strcmp(t[1], "T")) do_T(t);
         else if (nt == 5 && !strcmp(t[0], "OOM") && !strcmp(t[1], "B")) do_B(t);
         else if (nt == 12 && !strcmp(t[0], "OOM") && !strcmp(t[1], "D")) do_D(t);
+        else if (nt == 9 && !strcmp(t[0], "OOM") && !strcmp(t[1], "X")) do_X(t);
+        else if (nt == 7 && !strcmp(t[0], "OOM") && !strcmp(t[1], "F")) do_F(t);
+        else if (nt == 3 && !strcmp(t[0], "OOM") && !strcmp(t[1], "XINFO")) do_XINFO(t[2][0]);
         else if ((nt == 2 || nt == 3) && !strcmp(t[0], "OOM") && !strcmp(t[1], "INFO")) {
             /* page-0 rows of the WML 1.3 tables the P and T verbs may name ("OOM INFO R": DRMREL 1.0, for D) */
             int i, any = 0; const WBXMLLangEntry *save = U_lang;
